@@ -122,6 +122,16 @@ Lemma ut_additive_meas_failure Lin Lout d dc p pc dx (w : utw O) (comps : list (
   f (sigma_points Lin d dc (w_c w) comps) = None ->
   ut_additive_meas Lin Lout pc dx w comps f R = None.
 Proof. by move=> H; rewrite /ut_additive_meas ut_generic_failure. Qed.
+
+Lemma ut_failure_all Lin Lout d dc p pc dx (w : utw O) (comps : list (M O d 1 * M O dc dc))
+      (f : list (M O d 1) -> option (list (M O p 1))) R :
+  f (sigma_points Lin d dc (w_c w) comps) = None ->
+  [/\ ut_generic Lin Lout pc dx w comps f = None,
+      ut_meas Lin Lout pc dx w comps f = None &
+      ut_additive_meas Lin Lout pc dx w comps f R = None].
+Proof.
+by move=> H; split; [exact: ut_generic_failure | exact: ut_meas_failure | exact: ut_additive_meas_failure].
+Qed.
 End Generic.
 
 (* ------------------------------------------------------------------ *)
@@ -185,7 +195,473 @@ by rewrite mulrC -mulrDl [lam + _]addrC divff.
 Qed.
 
 Lemma ut_weights_lengths :
-  length (w_mean (ut_weights (O:=O) n alpha beta kappa)) = (2 * n + 1)%coq_nat /\
-  length (w_cov (ut_weights (O:=O) n alpha beta kappa)) = (2 * n + 1)%coq_nat.
-Proof. by rewrite ut_weights_mean ut_weights_cov /= !repeat_length; split; lia. Qed.
+  length (w_mean (ut_weights (O:=O) n alpha beta kappa)) = Nat.add (Nat.mul 2 n) 1 /\
+  length (w_cov (ut_weights (O:=O) n alpha beta kappa)) = Nat.add (Nat.mul 2 n) 1.
+Proof. by rewrite /ut_weights /= !repeat_length; split; lia. Qed.
+
+Lemma ut_weights_shape :
+  [/\ length (w_mean (ut_weights (O:=O) n alpha beta kappa)) = Nat.add (Nat.mul 2 n) 1,
+      length (w_cov (ut_weights (O:=O) n alpha beta kappa)) = Nat.add (Nat.mul 2 n) 1 &
+      w_c (ut_weights (O:=O) n alpha beta kappa) = alpha * alpha * (n%:R + kappa)].
+Proof. by case: ut_weights_lengths => H1 H2; split=> //; rewrite ut_weights_c ut_weights_c_alt. Qed.
 End Weights.
+
+(* ---- weighted sums over lists of columns ---- *)
+Lemma lsum_map (V : zmodType) A B (g : B -> V) (h : A -> B) l :
+  lsum g (List.map h l) = lsum (fun x => g (h x)) l.
+Proof. by rewrite !lsumE lmap_map big_map. Qed.
+
+Definition M0 d (ws : list F) (xs : list 'cV[F]_d) : F := lsum (fun p => p.1) (combine ws xs).
+Definition M2 d (ws : list F) (xs : list 'cV[F]_d) (m : 'cV[F]_d) : 'M[F]_d :=
+  lsum (fun p => p.1 *: ((p.2 - m) *m (p.2 - m)^T)) (combine ws xs).
+
+Lemma wsumE d (ws : list F) (xs : list 'cV[F]_d) :
+  wsum (O:=O) ws xs = lsum (fun p => p.1 *: p.2) (combine ws xs).
+Proof. by []. Qed.
+
+Lemma wouterE a b (ws : list F) (us : list 'cV[F]_a) (vs : list 'cV[F]_b) :
+  wouter (O:=O) ws us vs = lsum (fun p => p.1 *: (p.2.1 *m p.2.2^T)) (combine ws (combine us vs)).
+Proof. by []. Qed.
+
+Lemma wsum_affine d p (Am : 'M[F]_(p,d)) (b : 'cV[F]_p) ws (xs : list 'cV[F]_d) :
+  wsum (O:=O) ws (List.map (fun x => Am *m x + b) xs) =
+  Am *m wsum (O:=O) ws xs + M0 ws xs *: b.
+Proof.
+rewrite !wsumE /M0 combine_map_r lsum_map !lsumE /=.
+rewrite mulmx_sumr scaler_suml -big_split /=; apply: eq_bigr => q _.
+by rewrite scalerDr scalemxAr.
+Qed.
+
+Lemma wouter_maps d a b (fu : 'cV[F]_d -> 'cV[F]_a) (fv : 'cV[F]_d -> 'cV[F]_b) ws (xs : list 'cV[F]_d) :
+  wouter (O:=O) ws (List.map fu xs) (List.map fv xs) =
+  lsum (fun p => p.1 *: (fu p.2 *m (fv p.2)^T)) (combine ws xs).
+Proof. by rewrite wouterE combine_map2 combine_map_r lsum_map. Qed.
+
+Lemma wouter_affine d a b (Cu : 'M[F]_(a,d)) (Cv : 'M[F]_(b,d)) (m : 'cV[F]_d) ws (xs : list 'cV[F]_d) :
+  wouter (O:=O) ws (List.map (fun x => Cu *m (x - m)) xs) (List.map (fun x => Cv *m (x - m)) xs) =
+  Cu *m M2 ws xs m *m Cv^T.
+Proof.
+rewrite wouter_maps /M2 !lsumE mulmx_sumr mulmx_suml; apply: eq_bigr => q _.
+by rewrite trmx_mul -scalemxAr -scalemxAl !mulmxA.
+Qed.
+
+(* ---- the symmetric sigma set as three sums ---- *)
+Lemma sigma_sum (V : zmodType) d (g : F * 'cV[F]_d -> V) w0 wi x0
+      (f : 'cV[F]_d -> 'cV[F]_d) (g1 g2 : nat -> 'cV[F]_d) n :
+  lsum g (combine (w0 :: repeat wi (2 * n))
+                  (x0 :: List.map f (List.map g1 (List.seq 0 n) ++ List.map g2 (List.seq 0 n))%list)) =
+  g (w0, x0) + (\sum_(k < n) g (wi, f (g1 k)) + \sum_(k < n) g (wi, f (g2 k))).
+Proof.
+rewrite [combine _ _]/= lsum_cons; congr (_ + _).
+rewrite mul2n -addnn -plusE repeat_app map_app combine_app; last first.
+  by rewrite repeat_length !map_length seq_length.
+rewrite !map_map !combine_repeat_map lsumE app_cat big_cat !big_map /=.
+rewrite -(big_mkord xpredT (fun k => g (wi, f (g1 k)))) -(big_mkord xpredT (fun k => g (wi, f (g2 k)))).
+by rewrite /index_iota subn0.
+Qed.
+
+Lemma mcolE d e (B : 'M[F]_(d,e)) (k : 'I_e) : mcol (O:=O) k B = col k B.
+Proof. by apply/matrixP=> i j; rewrite /mcol /= !mxE (mx_get_ord B i k). Qed.
+
+Lemma sum_col_outer d e (B : 'M[F]_(d,e)) : \sum_(k < e) col k B *m (col k B)^T = B *m B^T.
+Proof.
+apply/matrixP=> i j; rewrite summxE !mxE; apply: eq_bigr => k _.
+by rewrite !mxE big_ord1 !mxE.
+Qed.
+
+(* ---- linear layout (+ appended noise rows): the per-row code is plain matrix algebra ---- *)
+Definition linear_layout (L : layout) (d : nat) : Prop :=
+  l_circ L = 0%N /\ Nat.add (l_lin L) (l_noise L) = d.
+
+Section LinearRows.
+Variables (L : layout) (d : nat).
+Hypothesis HL : linear_layout L d.
+
+Lemma mx_get_col r (x : 'cV[F]_r) (i : 'I_r) : mx_get x i 0 = x i 0.
+Proof. exact: (mx_get_ord x i 0). Qed.
+
+Lemma colget_ord r (x : 'cV[F]_r) (i : 'I_r) : colget (O:=O) x i = x i 0.
+Proof. by rewrite /colget /=; exact: mx_get_col. Qed.
+
+Lemma add_mean_linear central (m p : 'cV[F]_d) : add_mean (O:=O) L d d central m p = p + m.
+Proof.
+case: HL => Lc Ld.
+apply/matrixP=> i j; rewrite /add_mean /= !mxE /add_mean_row Lc /= Nat.add_0_r !mx_get_col !ord1.
+case: Nat.ltb_spec => // Hi.
+have -> : (Nat.sub d (l_noise L) <=? i)%coq_nat = true by apply/Nat.leb_le; lia.
+have -> : Nat.sub i (Nat.sub d d) = i by lia.
+by rewrite mx_get_col.
+Qed.
+
+(* rows [0, dx) of a vector: E *m x with E the selector *)
+Definition sel (dx : nat) : 'M[F]_(dx, d) := \matrix_(i, j) ((i : nat) == j)%:R.
+
+Lemma sel_mul dx (x : 'cV[F]_d) (i : 'I_dx) (Hd : (dx <= d)%N) :
+  (sel dx *m x) i 0 = x (widen_ord Hd i) 0.
+Proof.
+rewrite mxE (bigD1 (widen_ord Hd i)) //= mxE eqxx mul1r big1 ?addr0 // => j Hj.
+rewrite mxE; case: eqP => [E|_]; last by rewrite mul0r.
+by case/eqP: Hj; apply: val_inj.
+Qed.
+
+Lemma offsets_linear_in dx (x m : 'cV[F]_d) : l_lin L = dx ->
+  offsets (O:=O) L dx x m = sel dx *m (x - m).
+Proof.
+case: HL => Lc Ld Ldx.
+have Hd : (dx <= d)%N by apply/ssrnat.leP; lia.
+apply/matrixP=> i j; rewrite /offsets /= mxE ord1 (sel_mul _ _ Hd) /offset_row.
+have -> : (i <? l_lin L)%coq_nat = true by apply/Nat.ltb_lt; rewrite Ldx; apply/ssrnat.ltP.
+rewrite /colget /= !mxE.
+have Hi : (i < d)%N by apply: leq_trans Hd.
+rewrite /mx_get !insubT /=.
+by congr (x _ _ - m _ _); apply: val_inj.
+Qed.
+End LinearRows.
+
+Section LinearOut.
+Variables (L : layout) (p : nat).
+Hypothesis HL : l_lin L = p.
+
+Lemma out_mean_linear wm (Ys : list 'cV[F]_p) : out_mean (O:=O) L p wm Ys = wsum (O:=O) wm Ys.
+Proof.
+apply/matrixP=> i j; rewrite /out_mean /= mxE ord1.
+have -> : (i <? l_lin L)%coq_nat = true by apply/Nat.ltb_lt; rewrite HL; apply/ssrnat.ltP.
+exact: colget_ord.
+Qed.
+
+Lemma offsets_linear_out (y ref : 'cV[F]_p) : offsets (O:=O) L p y ref = y - ref.
+Proof.
+apply/matrixP=> i j; rewrite /offsets /= !mxE ord1 /offset_row.
+have -> : (i <? l_lin L)%coq_nat = true by apply/Nat.ltb_lt; rewrite HL; apply/ssrnat.ltP.
+by rewrite !colget_ord.
+Qed.
+End LinearOut.
+
+(* ---- the sigma points of one component, linear layout ---- *)
+Local Opaque mcol.
+Section SigmaMoments.
+Variables (L : layout) (d : nat).
+Hypothesis HL : linear_layout L d.
+Variables (c : F) (m : 'cV[F]_d) (P : 'M[F]_d).
+Let s := t_sqrt tr c.
+Let B : 'M[F]_d := s *: sq P.
+
+Lemma sigma_comp_linear :
+  sigma_comp (O:=O) L d d c m P =
+  m :: List.map (fun p => p + m)
+         (List.map (fun k => mcol (O:=O) k B) (List.seq 0 d) ++
+          List.map (fun k => mcol (O:=O) k (- B)) (List.seq 0 d))%list.
+Proof.
+rewrite /sigma_comp (add_mean_linear HL) [mzero _ _]/= add0r; congr (_ :: _).
+rewrite /perturbations [mscale _ _]/= [mscale _ _]/= scaleNr -/s -/B.
+by apply: map_ext => p; rewrite (add_mean_linear HL).
+Qed.
+
+Lemma sigma_comp_length : length (sigma_comp (O:=O) L d d c m P) = Nat.add (Nat.mul 2 d) 1.
+Proof. by rewrite sigma_comp_linear /= map_length app_length !map_length !seq_length; lia. Qed.
+
+Lemma sigma_comp_first x : List.nth 0 (sigma_comp (O:=O) L d d c m P) x = m.
+Proof. by rewrite sigma_comp_linear. Qed.
+
+Variables (w0 wi : F).
+Let ws := w0 :: repeat wi (2 * d).
+
+Lemma sigma_M0 : M0 ws (sigma_comp (O:=O) L d d c m P) = w0 + wi *+ (2 * d).
+Proof.
+rewrite /M0 sigma_comp_linear sigma_sum /= !sumr_const card_ord -mulrnDr.
+by rewrite addnn mul2n.
+Qed.
+
+Lemma sigma_M1 : wsum (O:=O) ws (sigma_comp (O:=O) L d d c m P) = (w0 + wi *+ (2 * d)) *: m.
+Proof.
+rewrite wsumE sigma_comp_linear sigma_sum /= -big_split /=.
+rewrite (eq_bigr (fun _ => wi *: (m + m))); last first.
+  move=> k _; rewrite !mcolE linearN /= -scalerDr; congr (_ *: _).
+  by rewrite addrACA subrr add0r.
+rewrite sumr_const card_ord scalerDl; congr (_ + _).
+by rewrite -mulr2n scalerMnr -mulrnA -scalerMnr scalerMnl.
+Qed.
+
+Lemma sigma_M2 : s * s = c -> sq P *m (sq P)^T = P ->
+  M2 ws (sigma_comp (O:=O) L d d c m P) m = (wi *+ 2 * c) *: P.
+Proof.
+move=> Hs HA.
+rewrite /M2 sigma_comp_linear sigma_sum /= subrr mul0mx scaler0 add0r.
+rewrite (eq_bigr (fun k : 'I_d => wi *: (col k B *m (col k B)^T))); last first.
+  by move=> k _; rewrite mcolE addrK.
+rewrite [X in _ + X](eq_bigr (fun k : 'I_d => wi *: (col k B *m (col k B)^T))); last first.
+  by move=> k _; rewrite mcolE addrK linearN /= linearN /= mulNmx mulmxN opprK.
+rewrite -!scaler_sumr sum_col_outer -scalerDl -mulr2n.
+have -> : B *m B^T = (s * s) *: (sq P *m (sq P)^T).
+  by rewrite /B [(s *: _)^T]linearZ /= -scalemxAl -scalemxAr scalerA.
+by rewrite HA Hs scalerA.
+Qed.
+End SigmaMoments.
+
+(* ---- one component through an affine map ---- *)
+Section AffineComponent.
+Variables (Lin Lout : layout) (d dx p : nat).
+Hypothesis HLin : linear_layout Lin d.
+Hypothesis Hdx : l_lin Lin = dx.
+Hypothesis HLout : l_lin Lout = p.
+Variable w : utw O.
+Variables (w0 w0c wi : F).
+Hypothesis Hwm : w_mean w = w0 :: repeat wi (2 * d).
+Hypothesis Hwc : w_cov w = w0c :: repeat wi (2 * d).
+Hypothesis Hsum : w0 + wi *+ (2 * d) = 1.
+Hypothesis Hwi : wi *+ 2 * w_c w = 1.
+Hypothesis Hsqrt : t_sqrt tr (w_c w) * t_sqrt tr (w_c w) = w_c w.
+Variables (Am : 'M[F]_(p,d)) (b : 'cV[F]_p).
+Variables (m : 'cV[F]_d) (P : 'M[F]_d).
+Hypothesis HA : sq P *m (sq P)^T = P.
+Let Xs := sigma_comp (O:=O) Lin d d (w_c w) m P.
+
+Lemma ut_component_affine :
+  ut_component (O:=O) Lin Lout p dx w m Xs (List.map (fun x => Am *m x + b) Xs) =
+  mkUtComp (O:=O) (Am *m m + b : 'cV[F]_p) (Am *m P *m Am^T) (sel d dx *m P *m Am^T).
+Proof.
+rewrite /ut_component (out_mean_linear HLout) wsum_affine Hwm.
+rewrite /Xs (sigma_M1 HLin) (sigma_M0 HLin) Hsum !scale1r -/Xs.
+rewrite map_map.
+rewrite (map_ext _ (fun x => Am *m (x - m))); last first.
+  by move=> x; rewrite (offsets_linear_out HLout) mulmxBr opprD addrACA subrr addr0.
+rewrite (map_ext (fun x : 'cV[F]_d => offsets (O:=O) Lin dx x m) (fun x => sel d dx *m (x - m))); last first.
+  by move=> x; rewrite (offsets_linear_in HLin).
+rewrite Hwc !wouter_affine /Xs (sigma_M2 HLin _ _ _ Hsqrt HA) Hwi scale1r.
+by [].
+Qed.
+End AffineComponent.
+
+Lemma chunk_map A B (f : A -> B) b i l : chunk b i (List.map f l) = List.map f (chunk b i l).
+Proof. by rewrite /chunk skipn_map firstn_map. Qed.
+
+(* ---- the whole mixture through an affine map ---- *)
+Section AffineMixture.
+Variables (Lin Lout : layout) (d dx p : nat).
+Hypothesis HLin : linear_layout Lin d.
+Hypothesis Hdx : l_lin Lin = dx.
+Hypothesis HLout : l_lin Lout = p.
+Variables (alpha beta kappa : F).
+Let w := ut_weights (O:=O) d alpha beta kappa.
+Hypothesis c_pos : 0 < w_c w.
+Hypothesis sqrt_contract : forall x : F, 0 <= x -> t_sqrt tr x * t_sqrt tr x = x.
+Hypothesis sq_contract : forall n (P : 'M[F]_n), psd P -> sq P *m (sq P)^T = P.
+Variables (Am : 'M[F]_(p,d)) (b : 'cV[F]_p).
+Variable comps : list ('cV[F]_d * 'M[F]_d).
+Hypothesis comps_psd : forall mc, In mc comps -> psd mc.2.
+
+Definition affine_image (N : 'M[F]_p) (mc : 'cV[F]_d * 'M[F]_d) : ut_comp O p p dx :=
+  mkUtComp (O:=O) (Am *m mc.1 + b : 'cV[F]_p) (Am *m mc.2 *m Am^T + N) (sel d dx *m mc.2 *m Am^T).
+
+Let X := sigma_points (O:=O) Lin d d (w_c w) comps.
+
+Lemma sigma_points_length : length X = Nat.mul (Nat.add (Nat.mul 2 d) 1) (length comps).
+Proof.
+rewrite /X /sigma_points; elim: comps => [|mc cs IH]; first by rewrite /=; lia.
+rewrite List.map_cons concat_cons app_length IH (sigma_comp_length HLin) [length (_ :: _)]/=; lia.
+Qed.
+
+Lemma sigma_points_chunk i (d0 : 'cV[F]_d * 'M[F]_d) : (i < length comps)%coq_nat ->
+  chunk (Nat.add (Nat.mul 2 d) 1) i X =
+  sigma_comp (O:=O) Lin d d (w_c w) (List.nth i comps d0).1 (List.nth i comps d0).2.
+Proof.
+move=> Hi; rewrite /X /sigma_points chunk_concat; last by rewrite map_length.
+  rewrite (nth_indep _ _ (sigma_comp (O:=O) Lin d d (w_c w) d0.1 d0.2)) ?map_length //.
+  by rewrite (map_nth (fun mc => sigma_comp (O:=O) Lin d d (w_c w) mc.1 mc.2)).
+by move=> l /in_map_iff [mc [<- _]]; rewrite (sigma_comp_length HLin).
+Qed.
+
+Lemma w_c_neq0 : w_c w != 0. Proof. by rewrite gt_eqF. Qed.
+
+Lemma ut_core_affine :
+  ut_core (O:=O) Lin Lout p dx w comps X (affine_cols (O:=O) Am b X) =
+  mkUtResult (O:=O) (List.map (affine_image 0) comps)
+             (repeat (1 / (length comps)%:R) (length comps)).
+Proof.
+rewrite /ut_core; congr mkUtResult; last by rewrite /= ZnatE.
+pose h (i : nat) (mc : 'cV[F]_d * 'M[F]_d) : ut_comp O p p dx :=
+  ut_component (O:=O) Lin Lout p dx w mc.1 (chunk (Nat.add (Nat.mul 2 d) 1) i X)
+               (chunk (Nat.add (Nat.mul 2 d) 1) i (affine_cols (O:=O) Am b X)).
+apply: (@map_indexed _ _ h (affine_image 0) comps (0, 0)) => i Hi.
+rewrite /h /affine_cols chunk_map (sigma_points_chunk (0, 0) Hi).
+have h2 : (2%:R : F) != 0 by rewrite pnatr_eq0.
+have c0 : d%:R + (alpha * alpha * (d%:R + kappa) - d%:R) != 0.
+  by rewrite -(ut_weights_c d alpha beta kappa); exact: w_c_neq0.
+rewrite /affine_image addr0.
+apply: (@ut_component_affine Lin Lout d dx p HLin Hdx HLout w _ _ _
+          (ut_weights_mean d alpha beta kappa) (ut_weights_cov d alpha beta kappa)).
+- have := ut_weights_sum beta c0.
+  by rewrite ssumE ut_weights_mean big_cons sum_repeat.
+- rewrite ut_weights_c; set cc := d%:R + _ in c0 *.
+  by rewrite -[_ *+ 2]mulr_natl mul1r invfM mulrA mulfV // mul1r mulVf.
+- by apply: sqrt_contract; apply: ltW.
+- apply: sq_contract; apply: comps_psd; exact: nth_In.
+Qed.
+
+Lemma ut_generic_affine :
+  ut_generic (O:=O) Lin Lout p dx w comps (fun X => Some (affine_cols (O:=O) Am b X)) =
+  Some (mkUtResult (O:=O) (List.map (affine_image 0) comps)
+                   (repeat (1 / (length comps)%:R) (length comps))).
+Proof. by rewrite /ut_generic ut_core_affine. Qed.
+
+Lemma ut_state_affine :
+  ut_state (O:=O) Lin Lout p dx w comps (affine_cols (O:=O) Am b) =
+  mkUtResult (O:=O) (List.map (affine_image 0) comps)
+             (repeat (1 / (length comps)%:R) (length comps)).
+Proof. by rewrite /ut_state ut_core_affine. Qed.
+
+Lemma add_noise_affine N :
+  add_noise_cov (O:=O) N (mkUtResult (O:=O) (List.map (affine_image 0) comps)
+                            (repeat (1 / (length comps)%:R) (length comps))) =
+  mkUtResult (O:=O) (List.map (affine_image N) comps)
+             (repeat (1 / (length comps)%:R) (length comps)).
+Proof.
+rewrite /add_noise_cov /= map_map; congr mkUtResult.
+by apply: map_ext => mc; rewrite /affine_image /= addr0.
+Qed.
+
+Lemma ut_additive_state_affine Q :
+  ut_additive_state (O:=O) Lin Lout p dx w comps (affine_cols (O:=O) Am b) Q =
+  mkUtResult (O:=O) (List.map (affine_image Q) comps)
+             (repeat (1 / (length comps)%:R) (length comps)).
+Proof. by rewrite /ut_additive_state ut_state_affine add_noise_affine. Qed.
+
+Lemma ut_meas_affine :
+  ut_meas (O:=O) Lin Lout p dx w comps (fun X => Some (affine_cols (O:=O) Am b X)) =
+  Some (mkUtResult (O:=O) (List.map (affine_image 0) comps)
+                   (repeat (1 / (length comps)%:R) (length comps))).
+Proof. exact: ut_generic_affine. Qed.
+
+Lemma ut_additive_meas_affine R :
+  ut_additive_meas (O:=O) Lin Lout p dx w comps (fun X => Some (affine_cols (O:=O) Am b X)) R =
+  Some (mkUtResult (O:=O) (List.map (affine_image R) comps)
+                   (repeat (1 / (length comps)%:R) (length comps))).
+Proof. by rewrite /ut_additive_meas ut_generic_affine add_noise_affine. Qed.
+
+Lemma ut_models_affine :
+  let r := mkUtResult (O:=O) (List.map (affine_image 0) comps)
+                      (repeat (1 / (length comps)%:R) (length comps)) in
+  ut_state (O:=O) Lin Lout p dx w comps (affine_cols (O:=O) Am b) = r /\
+  ut_meas (O:=O) Lin Lout p dx w comps (fun X => Some (affine_cols (O:=O) Am b X)) = Some r.
+Proof. by split; [exact: ut_state_affine | exact: ut_meas_affine]. Qed.
+
+Lemma ut_additive_affine N :
+  let r := mkUtResult (O:=O) (List.map (affine_image N) comps)
+                      (repeat (1 / (length comps)%:R) (length comps)) in
+  ut_additive_state (O:=O) Lin Lout p dx w comps (affine_cols (O:=O) Am b) N = r /\
+  ut_additive_meas (O:=O) Lin Lout p dx w comps (fun X => Some (affine_cols (O:=O) Am b X)) N = Some r.
+Proof. by split; [exact: ut_additive_state_affine | exact: ut_additive_meas_affine]. Qed.
+End AffineMixture.
+
+(* ---- the sigma points reproduce the moments they were drawn from ---- *)
+Section Moments.
+Variables (L : layout) (d : nat).
+Hypothesis HL : linear_layout L d.
+Variables (alpha beta kappa : F).
+Let w := ut_weights (O:=O) d alpha beta kappa.
+Hypothesis c_pos : 0 < w_c w.
+Hypothesis sqrt_contract : forall x : F, 0 <= x -> t_sqrt tr x * t_sqrt tr x = x.
+Hypothesis sq_contract : forall n (P : 'M[F]_n), psd P -> sq P *m (sq P)^T = P.
+Variables (m : 'cV[F]_d) (P : 'M[F]_d).
+Hypothesis psdP : psd P.
+Let Xs := sigma_comp (O:=O) L d d (w_c w) m P.
+
+Lemma sigma_moments_linear :
+  [/\ length Xs = Nat.add (Nat.mul 2 d) 1,
+      forall x, List.nth 0 Xs x = m,
+      wsum (O:=O) (w_mean w) Xs = m &
+      wouter (O:=O) (w_cov w) (List.map (fun x => x - m) Xs) (List.map (fun x => x - m) Xs) = P].
+Proof.
+have h2 : (2%:R : F) != 0 by rewrite pnatr_eq0.
+have c0 : d%:R + (alpha * alpha * (d%:R + kappa) - d%:R) != 0.
+  by rewrite -(ut_weights_c d alpha beta kappa) gt_eqF.
+split.
+- exact: sigma_comp_length.
+- by move=> x; exact: sigma_comp_first.
+- rewrite /w ut_weights_mean /Xs (sigma_M1 HL).
+  have := ut_weights_sum beta c0.
+  by rewrite ssumE ut_weights_mean big_cons sum_repeat => ->; rewrite scale1r.
+- rewrite wouter_maps -/(M2 _ _ m) /w ut_weights_cov /Xs (sigma_M2 HL).
+  + rewrite ut_weights_c; set cc := d%:R + _ in c0 *.
+    by rewrite -[_ *+ 2]mulr_natl mul1r invfM mulrA mulfV // mul1r mulVf // scale1r.
+  + by apply: sqrt_contract; apply: ltW.
+  + exact: sq_contract.
+Qed.
+End Moments.
+
+(* ---- block-diagonal PSD and the augmented variant ---- *)
+Lemma psd_block_diag n q (P : 'M[F]_n) (Q : 'M[F]_q) :
+  psd P -> psd Q -> psd (block_mx P 0 0 Q).
+Proof.
+case=> sP pP [sQ pQ]; split.
+  by rewrite /sym tr_block_mx !trmx0 sP sQ.
+move=> x; rewrite -[x]hsubmxK /qf mul_row_block !mulmx0 addr0 add0r tr_row_mx mul_row_col mxE.
+by apply: addr_ge0; [exact: pP | exact: pQ].
+Qed.
+
+Lemma sel_row_mx n q : sel (n + q) n = row_mx 1%:M 0 :> 'M[F]_(n, n + q).
+Proof.
+apply/matrixP=> i j; rewrite !mxE; case: splitP => k Hk; rewrite !mxE Hk //.
+by rewrite eqn_leq [(n + k <= i)%N]leqNgt ltn_addr // andbF.
+Qed.
+
+Section Augmented.
+Variables (Lin Lout : layout) (n q p : nat).
+Hypothesis HLin : linear_layout Lin (n + q).
+Hypothesis Hdx : l_lin Lin = n.
+Hypothesis HLout : l_lin Lout = p.
+Variables (alpha beta kappa : F).
+Let w := ut_weights (O:=O) (n + q) alpha beta kappa.
+Hypothesis c_pos : 0 < w_c w.
+Hypothesis sqrt_contract : forall x : F, 0 <= x -> t_sqrt tr x * t_sqrt tr x = x.
+Hypothesis sq_contract : forall n (P : 'M[F]_n), psd P -> sq P *m (sq P)^T = P.
+Variables (A : 'M[F]_(p,n)) (B : 'M[F]_(p,q)) (b : 'cV[F]_p) (Q : 'M[F]_q).
+Hypothesis psdQ : psd Q.
+Variable comps : list ('cV[F]_n * 'M[F]_n).
+Hypothesis comps_psd : forall mc, In mc comps -> psd mc.2.
+
+Definition augmented_image (N : 'M[F]_p) (mc : 'cV[F]_n * 'M[F]_n) : ut_comp O p p n :=
+  mkUtComp (O:=O) (A *m mc.1 + b : 'cV[F]_p) (A *m mc.2 *m A^T + B *m Q *m B^T + N) (mc.2 *m A^T).
+
+Let acomps : list ('cV[F]_(n + q) * 'M[F]_(n + q)) := List.map (augment_comp (O:=O) Q) comps.
+
+Lemma acomps_psd mc : In mc acomps -> psd mc.2.
+Proof.
+by move=> /in_map_iff [mc0 [<- Hin]]; apply: psd_block_diag => //; apply: comps_psd.
+Qed.
+
+Lemma augmented_image_eq N mc :
+  affine_image n (row_mx A B) b N (augment_comp (O:=O) Q mc) = augmented_image N mc.
+Proof.
+rewrite /affine_image /augmented_image /augment_comp /=.
+rewrite sel_row_mx -![col_mx (row_mx mc.2 0) (row_mx 0 Q)]/(block_mx mc.2 0 0 Q).
+rewrite mul_row_col !mul_row_block tr_row_mx !mul_row_col.
+by rewrite !mulmx0 !mul0mx !mul1mx !addr0 !add0r mul0mx addr0.
+Qed.
+
+Lemma ut_generic_affine_augmented :
+  ut_generic (O:=O) Lin Lout p n w acomps (fun X => Some (affine_cols (O:=O) (row_mx A B) b X)) =
+  Some (mkUtResult (O:=O) (List.map (augmented_image 0) comps)
+                   (repeat (1 / (length comps)%:R) (length comps))).
+Proof.
+rewrite (ut_generic_affine HLin Hdx HLout c_pos sqrt_contract sq_contract _ _ acomps_psd).
+by rewrite /acomps map_map map_length (map_ext _ _ (augmented_image_eq 0)).
+Qed.
+
+Lemma ut_state_affine_augmented :
+  ut_state (O:=O) Lin Lout p n w acomps (affine_cols (O:=O) (row_mx A B) b) =
+  mkUtResult (O:=O) (List.map (augmented_image 0) comps)
+             (repeat (1 / (length comps)%:R) (length comps)).
+Proof.
+rewrite (ut_state_affine HLin Hdx HLout c_pos sqrt_contract sq_contract _ _ acomps_psd).
+by rewrite /acomps map_map map_length (map_ext _ _ (augmented_image_eq 0)).
+Qed.
+
+Lemma ut_meas_affine_augmented :
+  ut_meas (O:=O) Lin Lout p n w acomps (fun X => Some (affine_cols (O:=O) (row_mx A B) b X)) =
+  Some (mkUtResult (O:=O) (List.map (augmented_image 0) comps)
+                   (repeat (1 / (length comps)%:R) (length comps))).
+Proof. exact: ut_generic_affine_augmented. Qed.
+End Augmented.
+
+End UTMx.
